@@ -13,6 +13,7 @@ fn main() {
     let rest = &args[2..];
     let code = match args[1].as_str() {
         "replay-prog" => xv::prog::cmd_replay(rest),
+        "rev-record" => xv::rev::cmd_record(rest),
         other => {
             eprintln!("unknown subcommand {}", other);
             2
